@@ -527,6 +527,57 @@ StrpClause(m, ev) ==
   ELSE IF hasY /\ (hasJ \/ (hasM /\ hasD)) /\ hasH /\ hasMi /\ hasS /\ hasZ /\ ~(Inst(m, q) = Inst(m, p) /\ ev.eq) THEN "not-equal-to-original"
   ELSE "ok"
 
+\* ---------------------------------------------------------------------- C19: the command line
+\* ev.cal = the calendar the invocation selects (option, else environment variable, else "gregorian")
+GToTP(g, z) ==
+  [rep |-> DateRep(g.dform), y |-> ExpYear(g), a |-> ExpA(g), b |-> ExpB(g), prec |-> "hms",
+   hh |-> ExpH(g), mi |-> ExpM(g), ss |-> ExpS(g), sod |-> ExpH(g) * 3600 + ExpM(g) * 60 + ExpS(g), us |-> 0, fu |-> 0,
+   frac |-> FALSE, zh |-> z[1], zm |-> z[2], xd |-> g.xd]
+RECURSIVE ShiftAll(_, _, _, _)
+ShiftAll(m, p, offs, k) == IF k > Len(offs) THEN p ELSE ShiftAll(m, AddDurTP(m, p, offs[k]), offs, k + 1)
+ToUTC(m, p) == AtLocal(m, [p EXCEPT !.zh = 0, !.zm = 0], Plus3(Local(m, p), <<0, -ZoneSec(p.zh, p.zm), 0>>))
+CliInput(m, ev, g) ==
+  LET z == IF g.tform # "none" /\ g.zform # "none" THEN <<g.zh, g.zm>>
+           ELSE IF ev.utc THEN <<0, 0>> ELSE LocalZoneFn(EffMin(ev) \div 60)
+      p0 == GToTP(g, z)
+  IN IF ev.utc THEN ToUTC(m, p0) ELSE p0
+TPToG(g, p) ==
+  [g EXCEPT !.neg = p.y < 0, !.y = Abs(p.y), !.a = p.a, !.b = p.b, !.hh = p.sod \div 3600, !.mi = (p.sod % 3600) \div 60,
+            !.ss = p.sod % 60, !.zh = p.zh, !.zm = p.zm]
+CliPointClause(ev) ==
+  LET m == Meaning(ev.cal)  g == ev.g
+      p == ShiftAll(m, CliInput(m, ev, g), ev.offs, 1)
+      \* with no offset nothing is normalised: the text comes back as written (24:00 stays 24:00)
+      out == IF Len(ev.offs) = 0 /\ ~ev.utc THEN g ELSE TPToG(g, p)
+  IN IF ev.traceback THEN "traceback-" \o ev.cls
+     ELSE IF ev.code # 0 THEN "exit-status-" \o ToString(ev.code)
+     ELSE IF ev.out # TPText(out) \o <<10>> THEN "printed-text-is-not-the-shifted-input-in-its-own-notation"
+     ELSE "ok"
+CliDiffClause(ev) ==
+  LET m == Meaning(ev.cal)
+      p1 == ShiftAll(m, CliInput(m, ev, ev.g), ev.offs, 1)
+      p2 == ShiftAll(m, CliInput(m, ev, ev.g2), ev.offs2, 1)
+      dist == Minus3(Inst(m, p2), Inst(m, p1))
+  IN IF ev.traceback THEN "traceback-" \o ev.cls
+     ELSE IF ev.code # 0 THEN "exit-status-" \o ToString(ev.code)
+     \* the total is printed as a float in the requested unit: ~1e-9 h at 10^7 h is a few microseconds
+     ELSE IF ev.total THEN (IF ev.parsed /\ Near3(ev.tlen, dist, 50) THEN "ok" ELSE "--as-total-differs-from-the-distance")
+     ELSE IF ~ev.parsed THEN "printed-duration-unreadable"
+     ELSE IF ev.d.y # 0 \/ ev.d.mo # 0 THEN "printed-duration-not-exact"
+     ELSE IF ev.d.len # dist THEN "first+d#second"
+     ELSE "ok"
+CliBadClause(ev) ==
+  IF ev.traceback THEN "traceback-" \o ev.cls
+  ELSE IF ev.code = 0 THEN "malformed-argument-accepted"
+  ELSE IF ~ev.msg THEN "no-message"
+  ELSE "ok"
+CliRecClause(ev) ==
+  IF ev.traceback THEN "traceback-" \o ev.cls
+  ELSE IF ev.code # 0 THEN "exit-status-" \o ToString(ev.code)
+  ELSE IF ev.lines # ev.expect THEN "number-of-printed-points"
+  ELSE IF ~ev.parsed THEN "printed-point-unreadable"
+  ELSE "ok"
+
 \* ---------------------------------------------------------------------- the step relation
 Clause(ev) ==
   CASE ev.op = "Begin"    -> "ok"
@@ -568,6 +619,10 @@ Clause(ev) ==
     [] ev.op = "DurAlt"   -> DurAltClause(ev)
     [] ev.op = "Strf"     -> StrfClause(mode, ev)
     [] ev.op = "Strp"     -> StrpClause(mode, ev)
+    [] ev.op = "CliPoint" -> CliPointClause(ev)
+    [] ev.op = "CliDiff"  -> CliDiffClause(ev)
+    [] ev.op = "CliBad"   -> CliBadClause(ev)
+    [] ev.op = "CliRec"   -> CliRecClause(ev)
     [] ev.op = "Raised"   -> "raised-" \o ev.cls
     [] OTHER -> "unknown-event-kind"
 
@@ -577,7 +632,8 @@ Step ==
        /\ Judge(ev, c)
        /\ rej' = RejInc(c)
        /\ mode' = IF ev.op = "Begin" THEN ev.cm
-                  ELSE IF ev.op = "SetMode" THEN Meaning(ev.sp) ELSE mode
+                  ELSE IF ev.op = "SetMode" THEN Meaning(ev.sp)
+                  ELSE IF ev.op \in {"CliPoint", "CliDiff", "CliBad", "CliRec"} THEN Meaning(ev.cal) ELSE mode
        /\ it' = CASE ev.op = "Begin" -> NoIt
                    [] ev.op = "IterOpen" -> [open |-> TRUE, inp |-> ev.inp, k |-> 0, last |-> ev.inp.a,
                                              forward |-> ev.forward, complete |-> FALSE]
